@@ -403,4 +403,4 @@ def run(acc, tier):
     else:
         engine.pmap(acc, shard_exhaustive, extra=(4, 10))
         engine.pmap(acc, shard_pairs_finite, extra=(4,))
-        engine.pmap(acc, shard_generated, extra=(25, 5, 9))
+        engine.pmap(acc, shard_generated, extra=(100, 5, 9))
